@@ -171,6 +171,19 @@ def parse_segments(text, version=None, encoding_chars=None, validation_level=Non
                             else:
                                 cur_idx = parents_refs.index((None, references))
                             for p_ref in parents_refs[cur_idx + 1:]:
+                                if current_parent is not None and \
+                                        p_ref[0] in [c.name for c in current_parent.children] and \
+                                        current_parent.repetitions[p_ref[0]][1] == 1:
+                                    # a group that cannot be repeated recurs: as for segments, another instance of
+                                    # the group that contains it is created
+                                    group = Group(current_parent.name, version=version,
+                                                  reference=current_parent.reference,
+                                                  validation_level=validation_level)
+                                    if current_parent.parent is None:
+                                        segments.append(group)
+                                    else:
+                                        current_parent.parent.add(group)
+                                    current_parent = group
                                 group = Group(p_ref[0], version=version, reference=p_ref[1],
                                               validation_level=validation_level)
                                 if current_parent is None:
